@@ -699,6 +699,39 @@ func readErrPriority(c *Ctx, p *Prog, rule, fnKey, rpID string) {
 		ob.Undecide("no readPackets call in Read")
 		return
 	}
+	// the other half of "data before the error": after readPackets has run, Read does not return before it
+	// has looked at the decoded buffer again (what was decoded by the very call that failed is handed over
+	// first)
+	ob2 := c.Obl(rule, fnKey+"#decoded-bytes-first", "no return of Read is reachable from the readPackets call without first consulting the decoded buffer (Len or Read on it): bytes decoded by the call that reported the error are delivered before the error")
+	{
+		via := map[ssa.Instruction]bool{}
+		allInstrs(fn, func(in ssa.Instruction) {
+			ci, ok := in.(ssa.CallInstruction)
+			if !ok {
+				return
+			}
+			id := p.CalleeID(ci.Common())
+			if (id == "(*bytes.Buffer).Len" || id == "(*bytes.Buffer).Read") && len(ci.Common().Args) > 0 {
+				if k, _, ok := fieldLoad(unspill(ci.Common().Args[0])); ok && strings.Contains(strings.ToLower(k.Field), "decoded") {
+					via[in] = true
+				}
+			}
+		})
+		bad2 := ""
+		for _, r := range returnsOf(fn) {
+			if canReachWithout(E, r, via) {
+				bad2 = "the return at " + p.InstrPos(r) + " is reachable from the readPackets call without looking at the decoded buffer"
+			}
+		}
+		switch {
+		case len(via) == 0:
+			ob2.Undecide("no use of the decoded buffer found in Read")
+		case bad2 != "":
+			ob2.Violate("%s", bad2)
+		default:
+			ob2.HoldNT("every path from readPackets to a return consults the decoded buffer")
+		}
+	}
 	sent := retrySentinels(p)
 	ei := errResultIndex(fn)
 	web := map[ssa.Value]bool{}
